@@ -189,6 +189,29 @@ def coq_index_list(imports, defs, fexpr, pairs, mode='mismatches', tag='x', shar
         for r in ex.map(one, chunks): res += r
     return sorted(res)
 
+def coq_multi(imports, defs, evals, pairs, tag='x', shard=150):
+    """Like coq_index_list but evaluates several (mode, fexpr) on the same cases in one coqc run per shard.
+    Returns a list of sorted index lists, one per element of `evals`."""
+    pre = PRELUDE % imports + defs
+    chunks = [(i, pairs[i:i + shard]) for i in range(0, len(pairs), shard)]
+    def one(ch):
+        base, ps = ch
+        items = ';\n '.join('(%s, %s)' % (a if isinstance(a, str) else to_val(a), b if isinstance(b, str) else to_val(b)) for a, b in ps)
+        body = 'Definition cases : list (val * val) := [\n %s ].\n' % items
+        body += '\n'.join('Eval vm_compute in (%s (%s) cases).' % (m, f) for m, f in evals)
+        rc, out, err = _coq_eval(pre, body, tag)
+        if rc != 0:
+            raise Broken('correspondence evaluation in Coq failed (%s)' % tag, (out + err)[-3000:])
+        ms = re.findall(r'=\s*\[(.*?)\]\s*:\s*list N', out, re.S)
+        if len(ms) != len(evals):
+            raise Broken('cannot parse Coq output (%s)' % tag, out[-2000:])
+        return [[base + int(x) for x in re.findall(r'\d+', m)] for m in ms]
+    res = [[] for _ in evals]
+    with concurrent.futures.ThreadPoolExecutor(max_workers=14) as ex:
+        for r in ex.map(one, chunks):
+            for k, lst in enumerate(r): res[k] += lst
+    return [sorted(x) for x in res]
+
 def coq_eval_term(imports, defs, term, tag='t'):
     rc, out, err = _coq_eval(PRELUDE % imports + defs, 'Eval vm_compute in (%s).' % term, tag)
     if rc != 0: raise Broken('Coq evaluation failed', (out + err)[-3000:])
